@@ -1,8 +1,9 @@
 (* C19 - in-memory ordered structures behave as ordered maps and priority queues, for every operation sequence.
    Statements only; proofs are in Proofs/C19_*.v. *)
 From Coq Require Import Sorted Permutation.
-From RV Require Import Base.Bytes Model.Search Model.Heap Model.PPQ Model.ZipTree Model.SortedCache Model.MergeSort Model.DsSet Model.SortedMap.
+From RV Require Import Base.Bytes Model.Search Model.Heap Model.PPQ Model.ZipTree Model.SortedCache Model.MergeSort Model.DsSet Model.SortedMap Model.HeapIdx.
 From RV Require Import Proofs.C19_Search Proofs.C19_Heap Proofs.C19_Hist Proofs.C19_PPQ Proofs.C19_ZipTree Proofs.C19_SortedCache.
+From RV Require Import Proofs.C19_HeapIdx.
 From RV Require Proofs.C19_Merge Proofs.C19_DsSet Proofs.C19_SortedMap.
 Open Scope N_scope.
 
@@ -119,6 +120,28 @@ Theorem heap_history : forall (A : Type) (lt : A -> A -> bool), swo lt -> forall
     (forall y, In y (fold_left (hstep lt) ops []) -> lt y x = false) /\ Permutation (fold_left (hstep lt) ops []) (x :: h').
 Proof. intros A lt H ops. split; [apply heap_history_ok; exact H|intros x h'; apply heap_history_pop_min; exact H]. Qed.
 Print Assumptions heap_history.
+
+(* the index-assigner call-backs (the events the Go code emits, transcribed in Model/HeapIdx.v) keep every live element's
+   reported index equal to its position, for duplicate-free contents: this is what PartitionedPriorityQueue relies on
+   when it calls Fix(partition.Index()) *)
+Theorem heap_index_assigner_tracks : forall (A : Type) (lt eqb : A -> A -> bool), (forall a b, eqb a b = true <-> a = b) ->
+  (forall x l, fst (pushE lt x l) = push lt x l) /\ (forall l, fst (popE lt l) = pop lt l) /\ (forall l i, fst (fixE lt l i) = fix_ lt l i) /\
+  (forall x l idx, NoDup (l ++ [x]) -> tracks l idx -> tracks (push lt x l) (apply_events eqb (snd (pushE lt x l)) idx)) /\
+  (forall l idx x l', NoDup l -> tracks l idx -> pop lt l = (Some x, l') ->
+     tracks l' (apply_events eqb (snd (popE lt l)) idx) /\ ((length l > 1)%nat -> apply_events eqb (snd (popE lt l)) idx x = (-1)%Z)) /\
+  (forall l i idx, NoDup l -> tracks l idx -> tracks (fix_ lt l i) (apply_events eqb (snd (fixE lt l i)) idx)).
+Proof.
+  intros A lt eqb Heqb. split; [apply pushE_fst|]. split; [apply popE_fst|]. split; [apply fixE_fst|].
+  split; [apply pushE_tracks; exact Heqb|]. split; [apply popE_tracks; exact Heqb|apply fixE_tracks_gen; exact Heqb].
+Qed.
+Print Assumptions heap_index_assigner_tracks.
+
+(* quirk of the code (not of the property): popping the only element reports index -1 and then 0 for it *)
+Theorem heap_pop_last_element_index_quirk : forall (A : Type) (lt eqb : A -> A -> bool), (forall a b, eqb a b = true <-> a = b) ->
+  forall l idx x l', length l = 1%nat -> pop lt l = (Some x, l') ->
+  snd (popE lt l) = [(x, (-1)%Z); (x, 0%Z)] /\ apply_events eqb (snd (popE lt l)) idx x = 0%Z.
+Proof. exact @popE_last_element_quirk. Qed.
+Print Assumptions heap_pop_last_element_index_quirk.
 
 Example swo_nonvacuous : swo N.ltb.
 Proof.
